@@ -140,6 +140,10 @@ pub enum TableKind {
 
 #[derive(Clone, Debug, Serialize, Deserialize, PartialEq, Eq, Hash)]
 pub struct LookupSpec {
+    /// the table has no all-zero row; disabled rows look up the first table row instead
+    /// (input = q·cell + (1−q)·t₀)
+    #[serde(default)]
+    pub zero_free: bool,
     pub kind: TableKind,
     /// advice (column, rotation) of each input
     pub inputs: Vec<(usize, i32)>,
@@ -164,6 +168,9 @@ pub struct GenSpec {
     pub constants: bool,
     /// number of copy-constraint attempts of each kind
     pub n_copies: usize,
+    /// redundant equality constraints between cells that are already tied (same copy class)
+    #[serde(default)]
+    pub n_redundant_copies: usize,
     pub n_inst_expose: usize,
     pub n_inst_load: usize,
     pub n_const_cells: usize,
@@ -192,6 +199,7 @@ impl Default for GenSpec {
             lookups: vec![],
             constants: false,
             n_copies: 0,
+            n_redundant_copies: 0,
             n_inst_expose: 0,
             n_inst_load: 0,
             n_const_cells: 0,
@@ -306,6 +314,8 @@ pub struct Plan {
     /// per lookup with an any-table: first row of the table block
     pub table_base: Vec<usize>,
     pub inst: Vec<Vec<InstSrc>>,
+    /// redundant `constrain_equal` pairs (both cells already in one copy class)
+    pub extra_equal: Vec<(Cell, Cell)>,
 }
 
 fn rows_ok(row: usize, rots: impl Iterator<Item = i32>, limit: usize) -> bool {
@@ -336,7 +346,11 @@ impl Plan {
         let mut next_table_base = limit;
         for (li, l) in spec.lookups.iter().enumerate() {
             let w = l.inputs.len();
-            let mut t = vec![vec![0u64; w]];
+            let mut t = if l.zero_free {
+                vec![(0..w).map(|_| rng.gen_range(1..1u64 << 40)).collect()]
+            } else {
+                vec![vec![0u64; w]]
+            };
             for _ in 1..l.table_rows {
                 t.push((0..w).map(|_| rng.gen_range(1..1u64 << 40)).collect());
             }
@@ -527,6 +541,35 @@ impl Plan {
                     cell: b,
                     src: Src::CopyOf(a),
                 });
+            }
+        }
+        // redundant equalities inside existing copy classes (chains A←B←C … plus A==C)
+        {
+            let mut class_of: BTreeMap<Cell, Cell> = BTreeMap::new();
+            let mut members: BTreeMap<Cell, Vec<Cell>> = BTreeMap::new();
+            for st in &plan.steps {
+                if let Step::Input { cell, src: Src::CopyOf(a) } = st {
+                    let root = class_of.get(a).copied().unwrap_or(*a);
+                    class_of.insert(*a, root);
+                    class_of.insert(*cell, root);
+                    let m = members.entry(root).or_insert_with(|| vec![root]);
+                    if !m.contains(a) {
+                        m.push(*a);
+                    }
+                    m.push(*cell);
+                }
+            }
+            let big: Vec<&Vec<Cell>> = members.values().filter(|m| m.len() >= 2).collect();
+            for _ in 0..spec.n_redundant_copies {
+                if big.is_empty() {
+                    break;
+                }
+                let m = big.choose(&mut rng).unwrap();
+                let a = *m.choose(&mut rng).unwrap();
+                let b = *m.choose(&mut rng).unwrap();
+                if a != b {
+                    plan.extra_equal.push((a, b));
+                }
             }
         }
         // constants
@@ -912,12 +955,26 @@ impl<F: PrimeField + FromUniformBytes<64>> Circuit<F> for GenCircuit {
                     let advice = cfg.advice.clone();
                     let inputs = l.inputs.clone();
                     let cols2 = cols.clone();
+                    // for zero-free tables the disabled rows look up the first table row
+                    let defaults: Vec<u64> = if l.zero_free {
+                        Plan::derive(&spec).tables[cfg.lookup_sel.len() - 1][0].clone()
+                    } else {
+                        vec![0; l.inputs.len()]
+                    };
                     meta.lookup("gen-lookup", move |m| {
                         let q = m.query_selector(sel);
                         inputs
                             .iter()
                             .zip(cols2.iter())
-                            .map(|((c, r), t)| (q.clone() * m.query_advice(advice[*c], Rotation(*r)), *t))
+                            .zip(defaults.iter())
+                            .map(|(((c, r), t), d)| {
+                                let one_minus_q = Expression::Constant(F::ONE) - q.clone();
+                                (
+                                    q.clone() * m.query_advice(advice[*c], Rotation(*r))
+                                        + one_minus_q * Expression::Constant(small::<F>(*d)),
+                                    *t,
+                                )
+                            })
                             .collect()
                     });
                     cfg.lookup_tables.push(cols);
@@ -1142,7 +1199,13 @@ impl<F: PrimeField + FromUniformBytes<64>> Circuit<F> for GenCircuit {
                                     let ac = region.assign_advice(|| "cp", col, cell.1, || val(cell))?;
                                     let src_cell = cells.get(a).copied();
                                     if let Some(sc) = src_cell {
-                                        region.constrain_equal(sc, ac.cell())?;
+                                        // both argument orders occur (the union-find of the
+                                        // permutation assembly treats them differently)
+                                        if cell.1 % 2 == 0 {
+                                            region.constrain_equal(ac.cell(), sc)?;
+                                        } else {
+                                            region.constrain_equal(sc, ac.cell())?;
+                                        }
                                     }
                                     ac.cell()
                                 }
@@ -1156,6 +1219,11 @@ impl<F: PrimeField + FromUniformBytes<64>> Circuit<F> for GenCircuit {
                             let ac = region.assign_advice(|| "o", cfg.advice[cell.0], cell.1, || val(&cell))?;
                             cells.insert(cell, ac.cell());
                         }
+                    }
+                }
+                for (a, b) in &plan.extra_equal {
+                    if let (Some(ca), Some(cb)) = (cells.get(a), cells.get(b)) {
+                        region.constrain_equal(*ca, *cb)?;
                     }
                 }
                 Ok((cells, inst_ties))
@@ -1397,6 +1465,7 @@ pub fn gen_spec<F: PrimeField + FromUniformBytes<64>>(
             }
         }
         spec.lookups.push(LookupSpec {
+            zero_free: matches!(kind, TableKind::Table) && rng.gen_bool(0.5),
             kind,
             inputs,
             table_rows: rng.gen_range(2..=6),
@@ -1404,7 +1473,8 @@ pub fn gen_spec<F: PrimeField + FromUniformBytes<64>>(
         });
     }
     if knobs.copies {
-        spec.n_copies = rng.gen_range(1..=6);
+        spec.n_copies = rng.gen_range(1..=8);
+        spec.n_redundant_copies = rng.gen_range(0..=4);
         spec.n_inst_expose = rng.gen_range(0..=3);
         spec.n_inst_load = rng.gen_range(0..=3);
         spec.n_const_cells = if knobs.constants { rng.gen_range(1..=3) } else { 0 };
